@@ -189,22 +189,13 @@ def handle (line : String) : String :=
       | some (m, ts2) =>
         match pTable ts2 with
         | some (rows, []) =>
-          match prepare sc.pct sc.st sc.call with
+          match run sc.pct sc.st.selectFrom sc.st.groupBy sc.order sc.call m rows with
           | .error e => showFail e
-          | .ok p =>
-            match selectRows (wheresFields p.conj) p.conj p.params rows with
-            | none => "err OperationalError"
-            | some sel =>
-              match (match sc.order with | some o => sortRows o sel | none => some sel) with
-              | none => "err OperationalError"
-              | some sorted =>
-                match finish m sorted with
-                | .error e => showFail e
-                | .ok none => "ok none"
-                | .ok (some out) =>
-                  match out.mapM rowId with
-                  | some ids => showWords ids
-                  | none => "bad-op"
+          | .ok none => "ok none"
+          | .ok (some out) =>
+            match out.mapM rowId with
+            | some ids => showWords ids
+            | none => "bad-op"
         | _ => "bad-op"
       | none => "bad-op"
     | none => "bad-op"
